@@ -490,11 +490,11 @@ def stream_molecule(ctx):
             n = rng.randint(1, 3)
             want = {}
             for a in scalars:
-                if rng.random() < 0.5:
-                    want[a] = rng.choice([-1.1, 0.0, 2.5, -74.96, rng.uniform(-100, 0)])
+                if rng.random() < 0.5 or k < 2:
+                    want[a] = 0.0 if k == 0 else rng.choice([-1.1, 0.0, 2.5, -74.96, rng.uniform(-100, 0)])
             for a in ints:
-                if rng.random() < 0.5:
-                    want[a] = rng.choice([0, 1, 2, 4, 10])
+                if rng.random() < 0.5 or k < 2:
+                    want[a] = 0 if k == 0 else rng.choice([0, 1, 2, 4, 10])
             for a, rank in arrays.items():
                 if rng.random() < 0.4:
                     want[a] = numpy.array([rng.uniform(-1, 1) for _ in range(n ** rank)]).reshape((n,) * rank)
